@@ -1,6 +1,6 @@
 SPECIFICATION MCSpec
 CONSTANTS
-  Layouts <- CatIm
+  Layouts <- CatQIm
   Impl <- NoDevs
 CONSTRAINT MCBound5
 INVARIANT TypeOK
